@@ -6,6 +6,7 @@ import CasbinVerif.Spec.Mono
 import CasbinVerif.Spec.Perm
 import CasbinVerif.Spec.Mirror
 import CasbinVerif.Spec.Guarded
+import CasbinVerif.Spec.RbacApi
 /-
   Driver ops for the enforcer state machine (C01, C03, C04, C05, C10, C11, C15, C17).  See
   harness/cmd/corr/enfops.go for the Go side of the same vocabulary.
@@ -222,6 +223,41 @@ def candidatesOf (e : Enf) : List String :=
   let col (j : Nat) := e.md.g.flatMap (fun (gt, _, _) => (((e.g.lookup gt).map (·.policy)).getD []).map (fun r => r.getD j "") |>.eraseDups)
   Rbac.candidateUsers pSubjects (col 0) (col 1)
 
+/-- a call of the convenience layer as it appears on a line: `rbac <name> <args> || <rules>` -/
+def parseRbac (name : String) (a : List String) (rules : List Rule) : Option RbacOp :=
+  match name, a with
+  | "addRoleForUser", u :: r :: ds => some (.addRoleForUser u r ds)
+  | "addRoleForUserInDomain", [u, r, d] => some (.addRoleForUser u r [d])
+  | "addRolesForUser", u :: ds => some (.addRolesForUser u (rules.map (·.headD "")) ds)
+  | "deleteRoleForUser", u :: r :: ds => some (.deleteRoleForUser u r ds)
+  | "deleteRoleForUserInDomain", [u, r, d] => some (.deleteRoleForUser u r [d])
+  | "deleteRolesForUser", u :: ds => some (.deleteRolesForUser u ds)
+  | "deleteUser", [u] => some (.deleteUser u)
+  | "deleteRole", [r] => some (.deleteRole r)
+  | "deletePermission", perm => some (.deletePermission perm)
+  | "addPermissionForUser", u :: perm => some (.addPermissionForUser u perm)
+  | "addPermissionsForUser", [u] => some (.addPermissionsForUser u rules)
+  | "deletePermissionForUser", u :: perm => some (.deletePermissionForUser u perm)
+  | "deletePermissionsForUser", [u] => some (.deletePermissionsForUser u)
+  | "deleteRolesForUserInDomain", [u, d] => some (.deleteRolesForUserInDomain u d)
+  | "deleteAllUsersByDomain", [d] => some (.deleteAllUsersByDomain d)
+  | "deleteDomains", ds => some (.deleteDomains ds)
+  | _, _ => none
+
+/-- what the exactness theorems of Properties/C05Rbac.lean promise for the listings after a removing
+    call that reported no error: (grouping rules, policy rules); `none` = no theorem speaks -/
+def rbacSpec (e : Enf) (op : RbacOp) : Option (List Rule × List Rule) :=
+  let g := e.listed "g" "g"
+  let p := e.listed "p" "p"
+  match op, Rbac.fieldIndex e "sub" with
+  | .deleteRolesForUser u [], _ => if u == "" then none else some (g.filter (fun r => r.headD "" != u), p)
+  | .deleteUser u, some si =>
+      if u == "" then none else some (g.filter (fun r => r.headD "" != u), p.filter (fun r => r.getD si "" != u))
+  | .deleteRole r, some si =>
+      if r == "" then none
+      else some (g.filter (fun x => x.headD "" != r && x.getD 1 "" != r), p.filter (fun x => x.getD si "" != r))
+  | _, _ => none
+
 def enfOp (st : EnfSt) (ts : List String) : Option (EnfSt × String × String × Bool) :=
   let hdr (st' : EnfSt) : Option (EnfSt × String × String × Bool) := some (st', "#", "-", true)
   match ts with
@@ -338,6 +374,22 @@ def enfOp (st : EnfSt) (ts : List String) : Option (EnfSt × String × String ×
           let (e', res) := e.updateFiltered sec pt news fi vs
           -- UpdateFilteredPolicies is outside the alphabet of the invariant theorem
           some ({ st with enf := some { ep with base := e' }.syncCache, histOk := false }, showMRes res, "-", true)
+      | "rbac", name :: rest => do
+          let (a, b) ← splitTwo "||" rest
+          let args ← decodeAll a
+          let rules ← decodeRules b
+          let op ← parseRbac name args rules
+          let wf := e.rbacWF op
+          match Rbac.run EnfP.applyM (·.base) ep op with
+          | none => some ({ st with histOk := false }, "panic", "-", false)
+          | some (ep', res) =>
+              let show3 (r : String) (g p : List Rule) : String := r ++ " / " ++ encodeRules g ++ " / " ++ encodeRules p
+              let m := show3 (showMRes res) (ep'.base.listed "g" "g") (ep'.base.listed "p" "p")
+              let inHyp := wf && hOk && !res.isErr
+              let sp := match rbacSpec e op with
+                | some (g, p) => if inHyp then show3 "_" g p else "-"
+                | none => "-"
+              some ({ st with enf := some ep', histOk := st.histOk && wf }, m, sp, inHyp)
       | "clear", [] =>
           match ep.applyM .clear with
           | some (ep', _) => some ({ st with enf := some ep', histOk := stateOk ep'.base }, "ok", "-", true)
